@@ -450,6 +450,11 @@ def run(prop, tier):
     }
     if prop == "C02":
         ctor_table(rep)
+    if prop == "C08":
+        # the split() half of the statement: a region is yielded before more input is pulled
+        from . import chk_split
+
+        chk_split.split_laziness(rep, 7 if tier == "quick" else 9)
     # model self-check (only matters for the oracles that use the models)
     if prop == "C04":
         mt = [t for t in tm.grid(4, im_max=0)]
@@ -488,6 +493,10 @@ def _dispatch(t):
 
 def replay(case):
     """Re-execute one recorded case; returns complaint or None."""
+    if case["kind"] == "lazy":
+        from . import chk_split
+
+        return chk_split.replay(case)
     if case["kind"] == "ctor":
         ST = _auditok()["ST"]
         p = case["params"]
